@@ -258,6 +258,22 @@ fn full(w: &W) -> Vec<(usize, usize)> {
 
 /// Enumerates crash images for one group of unsynced writes.
 /// `is_header(i)` tells which writes are header-page writes (torn at 8-byte words).
+/// Write indices singled out by the per-write image families: all of them for groups of up to 64
+/// writes; for larger groups (commits of hundreds of pages) the first and last four, every
+/// header write and about 24 evenly spaced ones.
+fn picked(k: usize, unsynced: &[W], pagesize: u64) -> Vec<usize> {
+    if k <= 64 {
+        return (0..k).collect();
+    }
+    let mut v: Vec<usize> = (0..4).chain(k - 4..k).collect();
+    let step = (k / 24).max(1);
+    v.extend((0..k).step_by(step));
+    v.extend((0..k).filter(|i| unsynced[*i].off < 2 * pagesize));
+    v.sort_unstable();
+    v.dedup();
+    v
+}
+
 pub fn enumerate_images(unsynced: &[W], size_changed: bool, pagesize: u64, rng: &mut Rng, exhaustive_up_to: usize, random_subsets: usize) -> (Vec<ImageSpec>, bool) {
     let k = unsynced.len();
     let mut out: Vec<ImageSpec> = Vec::new();
@@ -278,7 +294,7 @@ pub fn enumerate_images(unsynced: &[W], size_changed: bool, pagesize: u64, rng: 
     } else {
         push_subset(&|_| false, "power loss: none of the unsynced writes".into(), &mut out);
         push_subset(&|_| true, "all unsynced writes".into(), &mut out);
-        for j in 0..k {
+        for j in picked(k, unsynced, pagesize) {
             push_subset(&|i| i == j, format!("power loss: only write {} of {}", j, k), &mut out);
             push_subset(&|i| i != j, format!("power loss: all but write {} of {}", j, k), &mut out);
             push_subset(&|i| i <= j, format!("process kill / power loss: first {} of {} writes", j + 1, k), &mut out);
@@ -293,7 +309,7 @@ pub fn enumerate_images(unsynced: &[W], size_changed: bool, pagesize: u64, rng: 
     }
     // torn writes: every prefix subset with its last write cut at 512-byte sectors (process kill /
     // power loss), header writes cut at every 8-byte word, plus seeded sector subsets
-    for j in 0..k {
+    for j in picked(k, unsynced, pagesize) {
         let w = &unsynced[j];
         let n = w.data.len();
         let mut cuts: Vec<usize> = Vec::new();
